@@ -266,7 +266,7 @@ def one_history(ctx, gid, n_steps, mon):
                 elif how == "CreateCopy(unit=own unit)" and hasattr(a, "CreateCopy") and a.GetCategory() and not a.GetQuantity().IsDerived() and not a.GetQuantity().GetUnknownCaption():
                     # (a caption cannot travel through unit=: a captioned object is outside this form)
                     res = a.CreateCopy(unit=a.GetUnit())
-                elif how == "CreateCopy(unit) of an empty object" and hasattr(a, "CreateCopy") and a.GetQuantity().IsEmpty():
+                elif how == "CreateCopy(unit) of an empty object" and hasattr(a, "CreateCopy") and a.GetQuantity() is a.GetQuantity().CreateEmpty():
                     # giving a unit to an amount that has none is a copy that keeps the number(s)
                     res = None
                     given = a.CreateCopy(unit="m")
@@ -342,6 +342,13 @@ def one_history(ctx, gid, n_steps, mon):
             out = "ok"
         except Exception as e:
             out = type(e).__name__
+            # an exception raised by the harness's own line (not inside barril) is a call the object does not
+            # support (Fraction has no unit) or a harness mistake: name the line so that the evidence shows which
+            tb = e.__traceback__
+            while tb.tb_next is not None:
+                tb = tb.tb_next
+            if tb.tb_frame.f_code.co_filename.endswith("c13.py"):
+                ctx.count("step raised in the harness's own line: %s at c13.py:%d (%s)" % (out, tb.tb_lineno, type(a).__name__))
         if desc is None:
             continue
         # what a *conversion* returns belongs to the caller ("results are new objects"): a hostile caller
